@@ -14,6 +14,7 @@ import (
 	"strconv"
 	"strings"
 	"unicode"
+	"unicode/utf8"
 
 	"github.com/cespare/xxhash/v2"
 	"golang.org/x/tools/go/ssa"
@@ -97,6 +98,18 @@ func init() {
 		},
 		"sort.Slice":       sortSlice,
 		"sort.SliceStable": sortSlice,
+		"sort.SliceIsSorted": func(fr *frame, a []value) (value, bool) {
+			xs, ok := a[0].(iface).v.([]value)
+			if !ok {
+				panic(rtError("sort.SliceIsSorted: not a slice"))
+			}
+			for i := len(xs) - 1; i > 0; i-- {
+				if fr.i.run.concBool(call(fr.i, fr, token.NoPos, a[1], []value{i, i - 1}), "sort-less") {
+					return false, true
+				}
+			}
+			return true, true
+		},
 		"sort.Strings":     func(fr *frame, a []value) (value, bool) { sortValues(fr, a[0].([]value)); return nil, true },
 		"sort.Ints":        func(fr *frame, a []value) (value, bool) { sortValues(fr, a[0].([]value)); return nil, true },
 		"sort.Float64s":    func(fr *frame, a []value) (value, bool) { sortValues(fr, a[0].([]value)); return nil, true },
@@ -724,12 +737,63 @@ func sprintf(fr *frame, format value, args []value) value {
 			out = strConcat(out, "%!(NOVERB)")
 			break
 		}
-		// flags / width / precision are parsed and ignored except for padding digits
-		for i < len(f) && strings.IndexByte("+-# 0123456789.*", f[i]) >= 0 {
+		// flags and width (also '*', taken from the operands) are honoured for
+		// padding; precision is parsed and ignored
+		left, zero, width, hasWidth := false, false, 0, false
+		for i < len(f) && strings.IndexByte("+-# 0", f[i]) >= 0 {
+			if f[i] == '-' {
+				left = true
+			}
+			if f[i] == '0' {
+				zero = true
+			}
+			i++
+		}
+		if i < len(f) && f[i] == '*' {
+			if argi < len(args) {
+				if itf, ok := args[argi].(iface); ok {
+					if n, ok := itf.v.(int); ok {
+						width, hasWidth = n, true
+					}
+				}
+				argi++
+			}
+			i++
+		} else {
+			for i < len(f) && f[i] >= '0' && f[i] <= '9' {
+				width, hasWidth = width*10+int(f[i]-'0'), true
+				i++
+			}
+		}
+		if width < 0 {
+			left, width = true, -width
+		}
+		for i < len(f) && strings.IndexByte(".0123456789*", f[i]) >= 0 {
 			i++
 		}
 		if i >= len(f) {
 			break
+		}
+		pad := func(v value) value {
+			if !hasWidth {
+				return v
+			}
+			str, ok := v.(string)
+			if !ok {
+				return v // symbolic text is not padded
+			}
+			n := utf8.RuneCountInString(str)
+			if n >= width {
+				return v
+			}
+			fill := strings.Repeat(" ", width-n)
+			if left {
+				return str + fill
+			}
+			if zero {
+				fill = strings.Repeat("0", width-n)
+			}
+			return fill + str
 		}
 		verb := f[i]
 		if verb == '%' {
@@ -752,7 +816,7 @@ func sprintf(fr *frame, format value, args []value) value {
 		case 'w':
 			out = strConcat(out, stringify(fr, arg, 'v'))
 		default:
-			out = strConcat(out, stringify(fr, arg, verb))
+			out = strConcat(out, pad(stringify(fr, arg, verb)))
 		}
 	}
 	return out
